@@ -344,3 +344,26 @@ pub fn wide() -> Vec<Value> {
     }
     fails
 }
+
+// ---- helpers for the cache scenario (cache.rs) -------------------------------------------------------------------
+pub type CallIfaceDyn = dyn CallIface;
+pub type NarrowDyn = dyn Narrow;
+pub fn self_test_iface() -> Result<AbiConnection<dyn CallIface>, savefile::SavefileError> {
+    AbiConnection::<dyn CallIface>::from_boxed_trait(Box::new(Impl(DropToken(0))))
+}
+pub fn narrow_impl() -> Box<dyn Narrow> {
+    Box::new(NarrowImpl)
+}
+pub fn narrow_only(c: &AbiConnection<dyn Narrow>, x: u32) -> u32 {
+    c.only(x)
+}
+pub fn call_add(c: &AbiConnection<dyn CallIface>, x: u32) -> u32 {
+    c.add(x, 1)
+}
+pub fn call_take_obj(c: &AbiConnection<dyn CallIface>, id: u32) -> u32 {
+    c.take_obj(Box::new(TheObj(DropToken(id))))
+}
+pub fn call_make_and_use_obj(c: &AbiConnection<dyn CallIface>, id: u32) -> u32 {
+    let o = c.make_obj(id);
+    o.id()
+}
